@@ -165,12 +165,15 @@ def run(rep: common.Report, tier: str, seed: int, replay=None) -> int:
     for k, hk in enumerate(["L", "thinL", "C"] * (1 if tier == "quick" else 4)):
         specs.append(dict(shape="box", holes=1 + k % 2, terminals=[2, 0][k % 2], smooth=0, max_edge_length=[0.6, 0.9][k % 2],
                           xi=[0.5, 1.0][k % 2], hole_kind=hk))
+    for k in range(2 if tier == "quick" else 8):
+        specs.append(dict(shape=["box", "ellipse"][k % 2], holes=0, terminals=[2, 4][k % 2], smooth=0, max_edge_length=[0.5, 0.8][k % 2],
+                          xi=0.5, pad=True))
     texts, infos = [], []
     for mi, spec in enumerate(specs):
         try:
             dev = meshes.make_device(rng, holes=spec["holes"], terminals=spec["terminals"], smooth=spec["smooth"],
                                      max_edge_length=spec["max_edge_length"], shape=spec["shape"], xi=spec["xi"],
-                                     hole_kind=spec.get("hole_kind", "convex"))
+                                     hole_kind=spec.get("hole_kind", "convex"), pad=spec.get("pad", False))
         except RuntimeError:
             # twelve attempts with different outline resolutions all failed (mesh error, or terminals touching no boundary):
             # build once more without terminals and check what the mesher produced
@@ -185,7 +188,7 @@ def run(rep: common.Report, tier: str, seed: int, replay=None) -> int:
                           {"mesh": mi, **spec})
         U, kite, edge_tris, okm = check_mesh(rep, dev, spec, mi)
         rep.nontrivial((spec["shape"], spec["holes"], spec["terminals"], spec["smooth"], spec["max_edge_length"],
-                        spec.get("hole_kind", "convex")))
+                        spec.get("hole_kind", "convex"), spec.get("pad", False)))
         if mi < 3:
             rep.sample({**spec, "sites": len(dev.mesh.sites)})
         if mi < (4 if tier == "quick" else 12):
